@@ -48,6 +48,43 @@ fn product_case(r: usize, k: usize, c: usize) -> Result<(), String> {
     eq(&b, &bm, c, "B after &A*&B")?;
     let p2 = a.clone() * b.clone();
     eq(&p2, &expect, c, "A * B (owned)")?;
+    // f64 factors of DIFFERENT scale whose textbook products and sums are all exact (A = 2^e x small integers, B small integers,
+    // and the other way round): every entry must be the exact integer result, bit for bit. A reformulation of the inner product
+    // whose intermediates mix the two scales (Winograd's (a0 + b1)(a1 + b0) - a0 a1 - b0 b1) rounds them away
+    for (ea, eb) in [(30i32, 0i32), (0, 40), (45, -20), (-300, 300)] {
+        let (sa, sb) = (2f64.powi(ea), 2f64.powi(eb));
+        let ia = |i: usize, j: usize| ((i * 5 + j * 3) % 7) as i64 - 3;
+        let ib = |i: usize, j: usize| ((i * 2 + j * 7) % 9) as i64 - 4;
+        let mut fa = Matrix::<f64>::new(r, k, 0.0);
+        let mut fb = Matrix::<f64>::new(k, c, 0.0);
+        for i in 0..r {
+            for j in 0..k {
+                fa[(i, j)] = ia(i, j) as f64 * sa;
+            }
+        }
+        for i in 0..k {
+            for j in 0..c {
+                fb[(i, j)] = ib(i, j) as f64 * sb;
+            }
+        }
+        let fp = &fa * &fb;
+        let fp2 = fa.clone() * fb.clone();
+        ensure!(fp.rows() == r && fp.cols() == c, "f64 product shape");
+        for i in 0..r {
+            for j in 0..c {
+                let e: i64 = (0..k).map(|t| ia(i, t) * ib(t, j)).sum();
+                let want = e as f64 * sa * sb;
+                ensure!(fp[(i, j)] == want && fp2[(i, j)] == want, "f64 product of A = 2^{} x integers and B = 2^{} x integers: entry ({},{}) = {:e} / {:e}, exact {:e}", ea, eb, i, j, fp[(i, j)], fp2[(i, j)], want);
+            }
+        }
+        // matrix * vector over the same data
+        let xv = Vector::create((0..k).map(|t| ib(t, 1) as f64 * sb).collect());
+        let mv = fa.multiply(&xv);
+        for i in 0..r {
+            let e: i64 = (0..k).map(|t| ia(i, t) * ib(t, 1)).sum();
+            ensure!(mv[i] == e as f64 * sa * sb, "f64 A.multiply(x) with scales 2^{} / 2^{}: row {} = {:e}, exact {:e}", ea, eb, i, mv[i], e as f64 * sa * sb);
+        }
+    }
     // matrix-vector product with column 0 of B's pattern (vector of length k)
     let x: Vec<Rat> = (0..k).map(|i| rq(2 * i as i64 - 3, 3)).collect();
     let xv = Vector::create(x.clone());
@@ -292,11 +329,24 @@ fn norm_case(r: usize, c: usize, pat: usize) -> Result<(), String> {
     ensure!(left == right, "f64 * Matrix != Matrix * f64");
     // scalar operations over f64: every entry is the correctly rounded x op s (data where x/s != x*(1/s)),
     // compound forms bit-identical to the binary forms
-    let sl = [49.0, 5.0, 7.0, 10.0, 3.0, 1.0, -0.3];
+    let sl = [49.0, 5.0, 7.0, 10.0, 3.0, -0.0, -0.3];
     let mut b = Matrix::<f64>::new(r, c, 0.0);
     for i in 0..r {
         for j in 0..c {
             b[(i, j)] = sl[(i * 3 + j + pat) % 7];
+        }
+    }
+    // (the entries include -0.0 and the shifts +0.0 and -0.0: x - (+0.0) keeps -0.0, x + (0 - 0.0) does not)
+    for sc in [0.0f64, -0.0] {
+        let (mut aa, mut sa) = (b.clone(), b.clone());
+        aa += sc;
+        sa -= sc;
+        for i in 0..r {
+            for j in 0..c {
+                let x = b[(i, j)];
+                ensure!(aa[(i, j)].to_bits() == (x + sc).to_bits(), "A += {:?}: entry {:?} became {:?}", sc, x, aa[(i, j)]);
+                ensure!(sa[(i, j)].to_bits() == (x - sc).to_bits(), "A -= {:?}: entry {:?} became {:?}", sc, x, sa[(i, j)]);
+            }
         }
     }
     for sc in [3.0, 7.0, 49.0, 10.0, 0.1, -1.5] {
